@@ -89,6 +89,54 @@ func perturbedTree(r *rand.Rand, base string, k int, rooted bool, lenCls string)
 	return t.Newick()
 }
 
+// usedObject returns a tree object that IS the tree written in text, but has a past: it was read under another
+// name for one tip, indexed, and then renamed into its final state through the public API, without the caller
+// re-indexing (Node.SetName leaves the name index behind, Tree.Rename refreshes the name index but not the
+// bitsets). Functions that take trees must not trust whatever indexes an object happens to carry.
+func usedObject(r *rand.Rand, text string) *tree.Tree {
+	t := mustParse(text)
+	tips := t.Tips()
+	if len(tips) == 0 {
+		return t
+	}
+	tp := tips[r.Intn(len(tips))]
+	final := tp.Name()
+	tmp := "zzz_formerly_" + fmt.Sprint(r.Intn(1000))
+	tp.SetName(tmp)
+	if err := t.ReinitIndexes(); err != nil {
+		return mustParse(text)
+	}
+	switch r.Intn(3) {
+	case 0:
+		tp.SetName(final)
+	case 1:
+		if err := t.Rename(map[string]string{tmp: final}); err != nil {
+			return mustParse(text)
+		}
+	default:
+		tp.SetName(final)
+		t.ComputeDepths()
+	}
+	if t.Newick() != mustParse(text).Newick() {
+		return mustParse(text)
+	}
+	return t
+}
+
+// treesChanUsed is treesChan with about a third of the trees being used objects.
+func treesChanUsed(r *rand.Rand, texts []string) <-chan tree.Trees {
+	ch := make(chan tree.Trees, len(texts))
+	for i, s := range texts {
+		if r.Intn(3) == 0 {
+			ch <- tree.Trees{Tree: usedObject(r, s), Id: i}
+		} else {
+			ch <- tree.Trees{Tree: mustParse(s), Id: i}
+		}
+	}
+	close(ch)
+	return ch
+}
+
 func treesChan(texts []string) <-chan tree.Trees {
 	ch := make(chan tree.Trees, len(texts))
 	for i, s := range texts {
@@ -225,6 +273,11 @@ func runC09(c *Ctx, idx int, o *Obs) {
 		return
 	}
 	r0 := judge("Consensus", cons)
+	// the same collection, some trees being objects with a past (indexed under another name, then renamed)
+	if consU, err := tree.Consensus(treesChanUsed(r, texts), cutoff); o.Check(err == nil, "consensus_error", "used tree objects: "+fmt.Sprint(err), inp) {
+		o.Ev("Consensus_used_objects", 1)
+		judge("Consensus (some input trees are previously indexed and renamed objects)", consU)
+	}
 
 	// invariance: permuted order, re-rooted and rotated inputs
 	if r0 != nil && ntrees > 1 {
